@@ -261,6 +261,15 @@ func verifyFunction(w *World, fn *ssa.Function, spec *FuncSpec) (vc *VC) {
 					vc.oblige("ownership", fr.ownTags(), ex.reach, fmt.Sprintf("(not (select %s %s))", vc.get(ex.st, vc.ownedComp()), t.S), "released object has been given up: "+rel, ex.pos, nil)
 				}
 			}
+			// a pooled object received as a parameter is only borrowed: unless the contract says
+			// `releases`, the caller still owns it afterwards (and will return it to the pool itself)
+			for _, p := range fn.Params {
+				if !vc.isPooledPtr(p.Type()) || contains(spec.Releases, p.Name()) {
+					continue
+				}
+				pt := fr.val(p)
+				vc.oblige("ownership", fr.ownTags(), ex.reach, fmt.Sprintf("(or (= %s 0) (select %s %s))", pt.S, vc.get(ex.st, vc.ownedComp()), pt.S), "borrowed pooled parameter "+p.Name()+" is still owned on return (not put back by the callee)", ex.pos, nil)
+			}
 			vc.cover(ex.reach, fmt.Sprintf("return at %s is reachable", vc.posOf(ex.pos)))
 		case "panic":
 			ctx := fr.specCtx(ex.st, fr.entry, nil, 0)
